@@ -162,6 +162,14 @@ def run(eng, ctx):
                                     eofret.append(st_)
                 if eofret:
                     witness = "each iteration first reads >= 1 byte of the finite stream; an empty read raises EOFError whose handler returns (or makes the loop condition false)"
+            # W1b: any other loop whose every iteration starts by reading >= 1 byte through the read primitive, with no handler inside the loop that
+            # could swallow its EOFError: at the end of the finite stream the primitive raises and the exception leaves the loop (who catches it is D2)
+            first_stmt = (getattr(info.get("node"), "body", None) or [None])[0]
+            if witness is None and reads and reads[0] is body_effects[0] and getattr(reads[0], "stmt", None) is first_stmt and first_stmt is not None and not isinstance(first_stmt, (ast.If, ast.Try, ast.While, ast.For, ast.With)) \
+                    and is_const(reads[0].term[3][0]) and isinstance(reads[0].term[3][0][1], int) and reads[0].term[3][0][1] >= 1:
+                swallow = [h for h in walk_no_nested(n) if isinstance(h, ast.ExceptHandler) and (h.type is None or any(x in norm(h.type) for x in ("EOFError", "Exception", "BaseException")))]
+                if not swallow:
+                    witness = "each iteration first reads >= 1 byte of the finite stream through the read primitive; an empty read raises EOFError, which nothing inside the loop catches"
             # W2: loops that call a consumer and exit (return/break) when it reports nothing
             if witness is None:
                 cons = [e for e in body_effects if e.kind == "call" and (e.term[2][0] == "attr" and e.term[2][2] in ("_recv", "read", "readline", "recv") or is_self_call(e.term, eng.socket_receiver.split(".")[-1]))]
@@ -240,7 +248,7 @@ def run(eng, ctx):
                     if h.type is not None and norm(h.type) == "AttributeError" and any(isinstance(x, (ast.Break, ast.Return)) for st in h.body for x in ast.walk(st)):
                         witness = "loop left when an attribute probe raises AttributeError (finitely many attributes)"
             # W4a: the evaluator recognised the loop as a counted loop (counter advanced by one exactly once per iteration, invariant bound)
-            if witness is None and getattr(info.get("node"), "_sa_from_while", None) is n:
+            if witness is None and isinstance(info.get("node"), ast.For) and getattr(info.get("node"), "_sa_from_while", None) is n:
                 witness = f"counted loop: `{norm(n.test)}` with the counter advanced by one in every iteration and a loop-invariant bound (a range)"
             # W4b: m &= m - 1 on a non-negative m: every iteration clears one set bit, finitely many are set
             if witness is None and info.get("test") is not None and not info.get("body_dead") and not info.get("ends"):
